@@ -18,9 +18,16 @@ type obs struct {
 	e        *exec
 }
 
+// incObs is what one client.Client of a fluent client did: the requests its stream received, and the
+// operations queued on it that never reached a stream (by id).
+type incObs struct {
+	stream []*spb.ModifyRequest
+	unsent []*spb.AFTOperation
+}
+
 type clientObs struct {
 	name   int
-	stream []*spb.ModifyRequest
+	incs   []incObs // one per successful Start, oldest first
 	fatals int
 }
 
@@ -48,12 +55,21 @@ func runProg(p Prog, stats map[string]int) obs {
 	o := obs{e: e, protos: e.protos}
 	for _, name := range e.order {
 		c := e.clients[name]
-		o.clients = append(o.clients, clientObs{name: name, stream: c.stream(), fatals: c.fatals})
+		co := clientObs{name: name, fatals: c.fatals}
+		for k, in := range c.incs {
+			stream := in.stream()
+			unsent, onStream := in.unsent()
+			if len(in.pending) != onStream+len(unsent) {
+				e.problem("client %d, start %d: %d operations on the stream, %d of them in the pending queue of %d", name, k+1, onStream, len(in.pending)-len(unsent), len(in.pending))
+			}
+			co.incs = append(co.incs, incObs{stream: stream, unsent: unsent})
+		}
+		o.clients = append(o.clients, co)
 	}
 	// ---- oracle
 	for _, co := range o.clients {
 		c := e.clients[co.name]
-		e.oracleClient(c, co.stream)
+		e.oracleClient(c, co)
 	}
 	for i, pp := range e.protos {
 		if pp.op.GetId() != 0 || pp.op.GetOp() != spb.AFTOperation_INVALID {
@@ -84,66 +100,122 @@ func runProg(p Prog, stats map[string]int) obs {
 	return o
 }
 
-func (e *exec) oracleClient(c *cl, stream []*spb.ModifyRequest) {
+// idSeq follows the ids of ONE fluent client over its whole life (all its client.Clients, in the order
+// the operations were queued): they must be pairwise distinct and strictly increasing — a restart must
+// not hand out an id again — and, more precisely, 1, 2, 3, ...
+type idSeq struct {
+	last uint64 // greatest id seen so far (0: none)
+	next uint64
+}
+
+// checkOp evaluates the per-operation clauses of the property on one queued operation.
+func (e *exec) checkOp(c *cl, k int, w want, j int, op *spb.AFTOperation, ids *idSeq) {
+	id := op.GetId()
+	if ids.last > 0 && id <= ids.last {
+		e.problem("client %d, start %d: operation %d of the request of step %d has id %d although id %d was handed out before: the ids of one fluent client must be distinct and strictly increasing over its whole life, restarts included",
+			c.name, k+1, j, w.step, id, ids.last)
+	}
+	if id != ids.next {
+		e.problem("client %d, start %d: operation %d of the request of step %d has id %d, want %d (ids of one fluent client are 1,2,3,... in queue order, across restarts)", c.name, k+1, j, w.step, id, ids.next)
+	}
+	if id > ids.last {
+		ids.last = id
+	}
+	ids.next++
+	if op.GetOp() != w.op {
+		e.problem("client %d: operation id %d has type %v, the call was %v", c.name, id, op.GetOp(), w.op)
+	}
+	if kd := kindOfEntry(op); kd != w.kinds[j] {
+		e.problem("client %d: operation id %d carries a %s entry (%T), the builder was a %s builder", c.name, id, kd, op.GetEntry(), w.kinds[j])
+	}
+	if op.GetNetworkInstance() != w.nis[j] {
+		e.problem("client %d: operation id %d is for network instance %q, the last WithNetworkInstance said %q", c.name, id, op.GetNetworkInstance(), w.nis[j])
+	}
+	got, wantID := op.GetElectionId(), w.stamp[j]
+	switch {
+	case wantID == nil && got != nil:
+		e.problem("client %d: operation id %d is stamped with election id (%d,%d); want none (%s)", c.name, id, got.GetHigh(), got.GetLow(), w.whose[j])
+	case wantID != nil && (got == nil || got.GetHigh() != wantID[0] || got.GetLow() != wantID[1]):
+		e.problem("client %d: operation id %d is stamped with {%v}; want (%d,%d), the %s election id at queue time", c.name, id, got, wantID[0], wantID[1], w.whose[j])
+	}
+	e.stats["stamp_"+w.whose[j]]++
+	if k > 0 {
+		e.stats["ops_after_restart"]++
+		if w.whose[j] == "current" {
+			e.stats["stamp_current_after_restart"]++
+		}
+	}
+}
+
+func (e *exec) oracleClient(c *cl, co clientObs) {
 	if !c.started {
-		if len(stream) != 0 {
-			e.problem("client %d never started but its stream received %d messages", c.name, len(stream))
+		if len(co.incs) != 0 {
+			e.problem("client %d never started but has %d Modify streams", c.name, len(co.incs))
 		}
 		return
 	}
-	hs := len(stream) - len(c.wants)
-	if hs < 0 || hs > 2 {
-		e.problem("client %d: %d ModifyRequests on the stream for %d queueing calls", c.name, len(stream), len(c.wants))
-		return
-	}
-	for i := 0; i < hs; i++ {
-		if len(stream[i].GetOperation()) != 0 {
-			e.problem("client %d: a request that no AddEntry/ReplaceEntry/DeleteEntry call made carries operations", c.name)
+	ids := &idSeq{next: 1}
+	for k, in := range c.incs {
+		stream, unsent := co.incs[k].stream, co.incs[k].unsent
+		nSent := in.nSent()
+		if !in.everSent && len(stream) != 0 {
+			e.problem("client %d, start %d: never told to send but its stream received %d messages", c.name, k+1, len(stream))
+			return
 		}
-	}
-	next := uint64(1)
-	for i, w := range c.wants {
-		m := stream[hs+i]
-		if msg := faithful(m, absReq(m).pb()); msg != "" {
-			e.problem("client %d request %d: %s", c.name, i, msg)
+		hs := len(stream) - nSent
+		if hs < 0 || hs > 2 || (!in.everSent && hs != 0) {
+			e.problem("client %d, start %d: %d ModifyRequests on the stream for %d queueing calls made before Stop", c.name, k+1, len(stream), nSent)
+			return
 		}
-		if w.elec != nil {
-			got := m.GetElectionId()
-			if got == nil || got.GetHigh() != w.elec[0] || got.GetLow() != w.elec[1] || len(m.GetOperation()) != 0 || m.GetParams() != nil {
-				e.problem("client %d: UpdateElectionID of step %d queued {%v}", c.name, w.step, m)
+		for i := 0; i < hs; i++ {
+			if len(stream[i].GetOperation()) != 0 {
+				e.problem("client %d: a request that no AddEntry/ReplaceEntry/DeleteEntry call made carries operations", c.name)
 			}
-			continue
 		}
-		if m.GetElectionId() != nil || m.GetParams() != nil {
-			e.problem("client %d: the request of step %d carries an election id / parameters of its own: {%v}", c.name, w.step, m)
+		// what reached the stream: one request per queueing call made before Stop, in order
+		for i, w := range in.wants[:nSent] {
+			m := stream[hs+i]
+			if msg := faithful(m, absReq(m).pb()); msg != "" {
+				e.problem("client %d request %d: %s", c.name, i, msg)
+			}
+			if w.elec != nil {
+				got := m.GetElectionId()
+				if got == nil || got.GetHigh() != w.elec[0] || got.GetLow() != w.elec[1] || len(m.GetOperation()) != 0 || m.GetParams() != nil {
+					e.problem("client %d: UpdateElectionID of step %d queued {%v}", c.name, w.step, m)
+				}
+				continue
+			}
+			if m.GetElectionId() != nil || m.GetParams() != nil {
+				e.problem("client %d: the request of step %d carries an election id / parameters of its own: {%v}", c.name, w.step, m)
+			}
+			if len(m.GetOperation()) != len(w.kinds) {
+				e.problem("client %d: step %d passed %d entries, the request has %d operations", c.name, w.step, len(w.kinds), len(m.GetOperation()))
+				continue
+			}
+			for j, op := range m.GetOperation() {
+				e.checkOp(c, k, w, j, op, ids)
+			}
 		}
-		if len(m.GetOperation()) != len(w.kinds) {
-			e.problem("client %d: step %d passed %d entries, the request has %d operations", c.name, w.step, len(w.kinds), len(m.GetOperation()))
-			continue
+		// what stayed behind (queued on the stopped client, or never flushed before the client was
+		// replaced): the operations are in the pending queue of that client.Client
+		u := 0
+		for _, w := range in.wants[nSent:] {
+			for j := range w.kinds {
+				if u >= len(unsent) {
+					e.problem("client %d, start %d: step %d queued %d operations that did not go to the stream, the pending queue holds only %d such operations in all", c.name, k+1, w.step, len(w.kinds), len(unsent))
+					return
+				}
+				op := unsent[u]
+				u++
+				if msg := faithful(op, absOp(op).pb()); msg != "" {
+					e.problem("client %d unsent operation %d: %s", c.name, op.GetId(), msg)
+				}
+				e.checkOp(c, k, w, j, op, ids)
+				e.stats["ops_unsent"]++
+			}
 		}
-		for j, op := range m.GetOperation() {
-			// ids: 1, 2, 3, ... in queue order
-			if op.GetId() != next {
-				e.problem("client %d: operation %d of the request of step %d has id %d, want %d (ids of one client are 1,2,3,... in queue order)", c.name, j, w.step, op.GetId(), next)
-			}
-			next++
-			if op.GetOp() != w.op {
-				e.problem("client %d: operation id %d has type %v, the call was %v", c.name, op.GetId(), op.GetOp(), w.op)
-			}
-			if k := kindOfEntry(op); k != w.kinds[j] {
-				e.problem("client %d: operation id %d carries a %s entry (%T), the builder was a %s builder", c.name, op.GetId(), k, op.GetEntry(), w.kinds[j])
-			}
-			if op.GetNetworkInstance() != w.nis[j] {
-				e.problem("client %d: operation id %d is for network instance %q, the last WithNetworkInstance said %q", c.name, op.GetId(), op.GetNetworkInstance(), w.nis[j])
-			}
-			got, wantID := op.GetElectionId(), w.stamp[j]
-			switch {
-			case wantID == nil && got != nil:
-				e.problem("client %d: operation id %d is stamped with election id (%d,%d); want none (%s)", c.name, op.GetId(), got.GetHigh(), got.GetLow(), w.whose[j])
-			case wantID != nil && (got == nil || got.GetHigh() != wantID[0] || got.GetLow() != wantID[1]):
-				e.problem("client %d: operation id %d is stamped with {%v}; want (%d,%d), the %s election id at queue time", c.name, op.GetId(), got, wantID[0], wantID[1], w.whose[j])
-			}
-			e.stats["stamp_"+w.whose[j]]++
+		if u != len(unsent) {
+			e.problem("client %d, start %d: %d operations are pending that reached no stream and that no call of the program queued", c.name, k+1, len(unsent)-u)
 		}
 	}
 }
@@ -153,11 +225,18 @@ func (e *exec) oracleClient(c *cl, stream []*spb.ModifyRequest) {
 func (o obs) coq(p Prog) string {
 	cs := []string{}
 	for _, c := range o.clients {
-		ms := []string{}
-		for _, m := range c.stream {
-			ms = append(ms, absReq(m).coq())
+		is := []string{}
+		for _, in := range c.incs {
+			ms, us := []string{}, []string{}
+			for _, m := range in.stream {
+				ms = append(ms, absReq(m).coq())
+			}
+			for _, u := range in.unsent {
+				us = append(us, absOp(u).coq())
+			}
+			is = append(is, fmt.Sprintf("MkIObs [%s]\n      [%s]", strings.Join(ms, ";\n      "), strings.Join(us, ";\n      ")))
 		}
-		cs = append(cs, fmt.Sprintf("MkCObs %d [%s] %d", c.name, strings.Join(ms, ";\n      "), c.fatals))
+		cs = append(cs, fmt.Sprintf("MkCObs %d [%s] %d", c.name, strings.Join(is, ";\n     "), c.fatals))
 	}
 	ps := []string{}
 	for _, pp := range o.protos {
@@ -169,8 +248,13 @@ func (o obs) coq(p Prog) string {
 func (o obs) text() []string {
 	out := []string{}
 	for _, c := range o.clients {
-		for i, m := range c.stream {
-			out = append(out, fmt.Sprintf("client %d request %d: %v", c.name, i, m))
+		for k, in := range c.incs {
+			for i, m := range in.stream {
+				out = append(out, fmt.Sprintf("client %d start %d request %d: %v", c.name, k+1, i, m))
+			}
+			for _, u := range in.unsent {
+				out = append(out, fmt.Sprintf("client %d start %d unsent: %v", c.name, k+1, u))
+			}
 		}
 	}
 	return out
@@ -194,8 +278,10 @@ func runC18(args []string) error {
 		}
 	}
 	rep := drv.Report{Property: "C18", Seed: *f.Seed, Shard: drv.ShardSize, Stats: map[string]int{}, Cases: len(cases),
-		Rule: "programs of builder calls (any order, repeats) interleaved with AddEntry/ReplaceEntry/DeleteEntry/UpdateElectionID and connection " +
-			"calls on one or two clients; non-trivial = at least two operations queued, an entry with at least two builder calls on it queued, " +
+		Rule: "programs of builder calls (any order, repeats) interleaved with AddEntry/ReplaceEntry/DeleteEntry/UpdateElectionID, connection " +
+			"calls and the lifecycle calls Start / StartSending / Stop / Start again on one or two clients (Stats: programs_with_restart, " +
+			"programs_ops_across_restart = operations queued on at least two client.Clients of one fluent client, programs_sent_across_restart = " +
+			"operations on at least two Modify streams of one fluent client); non-trivial = at least two operations queued, an entry with at least two builder calls on it queued, " +
 			"at least one builder call made after an operation was queued, and at least one operation stamped with the client's current election id; " +
 			"distinct by the canonical JSON of the program"}
 	// serialise before running: a crash still leaves the replay
@@ -213,12 +299,21 @@ func runC18(args []string) error {
 		rep.Stats[fmt.Sprintf("clients_%d", len(o.clients))]++
 		rep.Stats["steps_total"] += len(p.Steps)
 		rep.Stats["operations_queued"] += e.queuedOps
+		if e.restarts > 0 {
+			rep.Stats["programs_with_restart"]++
+		}
+		if e.opsAcrossRestart {
+			rep.Stats["programs_ops_across_restart"]++
+		}
+		if e.sentAcrossRestart {
+			rep.Stats["programs_sent_across_restart"]++
+		}
 		if e.queuedOps >= 2 && e.repeatedSetter && e.callsAfterQueue > 0 && e.stampedFromClient > 0 {
 			b, _ := json.Marshal(p)
 			distinct[string(b)] = true
 		}
 		coq = append(coq, o.coq(p))
-		if len(rep.Samples) < 3 && (i == 1 || i%211 == 5) {
+		if len(rep.Samples) < 3 && (i == 3 || i%211 == 5) {
 			rep.Samples = append(rep.Samples, map[string]any{"program": p.coq(), "stream": o.text()})
 		}
 	}
